@@ -75,3 +75,29 @@ func signName(s int) string {
 	}
 	return "eq"
 }
+
+// Post steps: native fuzzing in the thorough tier (DESIGN §2.6).
+func (c03) Post(d *core.DriverCtx) error {
+	core.RunFuzz(d, []core.FuzzTarget{{Func: "FuzzC03Version", Kind: "roundtrip", Execs: 1500000}})
+	return nil
+}
+func (c05) Post(d *core.DriverCtx) error {
+	core.RunFuzz(d, []core.FuzzTarget{{Func: "FuzzC05Dependency", Kind: "dep", Execs: 2000000}, {Func: "FuzzC05Arch", Kind: "arch", Execs: 500000}})
+	return nil
+}
+func (c07) Post(d *core.DriverCtx) error {
+	core.RunFuzz(d, []core.FuzzTarget{{Func: "FuzzC07Paragraphs", Kind: "inv", Execs: 1000000}})
+	return nil
+}
+func (c08) Post(d *core.DriverCtx) error {
+	core.RunFuzz(d, []core.FuzzTarget{{Func: "FuzzC08Cycle", Kind: "cycle", Execs: 500000}})
+	return nil
+}
+func (c15) Post(d *core.DriverCtx) error {
+	core.RunFuzz(d, []core.FuzzTarget{{Func: "FuzzC15Ar", Kind: "ar-bytes", Execs: 1000000}, {Func: "FuzzC15Deb", Kind: "deb-bytes", Execs: 300000}})
+	return nil
+}
+func (c18) Post(d *core.DriverCtx) error {
+	core.RunFuzz(d, []core.FuzzTarget{{Func: "FuzzC18Parsers", Kind: "input", Execs: 300000}})
+	return nil
+}
